@@ -31,12 +31,35 @@ Proof.
   - pose proof (modn_range (a0 - PI)) as Ra1. unfold of_Z, PIn in Ra1. set (a1 := modn (a0 - PI) (2 * PI)) in *.
     destruct (leb (PI / 2 - eps) (2 * PI - b0)) eqn:E2; bools.
     + pose proof (modn_range (a1 + PI)) as Ra2. pose proof (modn_range (PI - c0)) as Rc2. unfold of_Z, PIn in Ra2, Rc2.
-      rewrite (modn_id (PI - (2 * PI - b0))) by lra.
+      pose proof (modn_id (PI - (2 * PI - b0)) ltac:(lra)) as MI. unfold of_Z, PIn in MI. rewrite MI.
       destruct (leb (PI - eps) (modn (PI - c0) (2 * PI))) eqn:E3; bools; repeat split; lra.
     + destruct (leb (PI - eps) c0) eqn:E3; bools; repeat split; lra.
   - destruct (leb (PI / 2 - eps) b0) eqn:E2; bools.
     + pose proof (modn_range (a0 + PI)) as Ra2. pose proof (modn_range (PI - c0)) as Rc2. unfold of_Z, PIn in Ra2, Rc2.
-      rewrite (modn_id (PI - b0)) by lra.
+      pose proof (modn_id (PI - b0) ltac:(lra)) as MI. unfold of_Z, PIn in MI. rewrite MI.
       destruct (leb (PI - eps) (modn (PI - c0) (2 * PI))) eqn:E3; bools; repeat split; lra.
     + destruct (leb (PI - eps) c0) eqn:E3; bools; repeat split; lra.
+Qed.
+
+(* passive sense: the roles of alpha and gamma are mirrored *)
+Lemma normalise_ranges_passive a b c eps : 0 <= eps < PI / 2 ->
+  let '(a', b', c') := normalise_euler_angles (a, b, c) true eps in
+  - eps <= a' < PI /\ 0 <= b' <= PI / 2 + eps /\ 0 <= c' < 2 * PI.
+Proof.
+  intros He. unfold normalise_euler_angles. cbv beta iota.
+  pose proof (modn_range a) as Ra. pose proof (modn_range b) as Rb. pose proof (modn_range c) as Rc. pose proof PI_RGT_0 as HP.
+  set (a0 := modn a (of_Z 2 * PIn)) in *. set (b0 := modn b (of_Z 2 * PIn)) in *. set (c0 := modn c (of_Z 2 * PIn)) in *.
+  unfold of_Z, PIn in *.
+  destruct (ltb PI b0) eqn:E1; bools.
+  - pose proof (modn_range (c0 - PI)) as Rc1. unfold of_Z, PIn in Rc1. set (c1 := modn (c0 - PI) (2 * PI)) in *.
+    destruct (leb (PI / 2 - eps) (2 * PI - b0)) eqn:E2; bools.
+    + pose proof (modn_range (PI + c1)) as Rc2. pose proof (modn_range (PI - a0)) as Ra2. unfold of_Z, PIn in Ra2, Rc2.
+      pose proof (modn_id (PI - (2 * PI - b0)) ltac:(lra)) as MI. unfold of_Z, PIn in MI. rewrite MI.
+      destruct (leb (PI - eps) (modn (PI - a0) (2 * PI))) eqn:E3; bools; repeat split; lra.
+    + destruct (leb (PI - eps) a0) eqn:E3; bools; repeat split; lra.
+  - destruct (leb (PI / 2 - eps) b0) eqn:E2; bools.
+    + pose proof (modn_range (PI + c0)) as Rc2. pose proof (modn_range (PI - a0)) as Ra2. unfold of_Z, PIn in Ra2, Rc2.
+      pose proof (modn_id (PI - b0) ltac:(lra)) as MI. unfold of_Z, PIn in MI. rewrite MI.
+      destruct (leb (PI - eps) (modn (PI - a0) (2 * PI))) eqn:E3; bools; repeat split; lra.
+    + destruct (leb (PI - eps) a0) eqn:E3; bools; repeat split; lra.
 Qed.
